@@ -713,3 +713,273 @@ def assign_check(s, profile, qs, timeout_ms, seed):
         if w:
             out.append(finding("wrong-result", w, "the value left on the operand stack is not the new element"))
     return out
+
+
+# ---------------------------------------------------------------- `a[k] += s` on string elements (concatenation is not commutative)
+class StrAssignSummary(ElemAssignSummary):
+    @property
+    def arm(self):
+        return "str +=,len=%d,at=%d" % (self.n, self.k)
+
+
+def summarize_str_assign(ak, n, k):
+    import strmodels, utf8models
+    t = time.time()
+    elems = [z3.BitVec("s%d" % i, 32) for i in range(n)]          # one-character strings
+    value = z3.BitVec("sv", 32)
+    pc = []
+    for c in elems + [value]:
+        utf8models.register_width(c, 1)
+        pc.append(z3.And(z3.UGE(c, 0x21), z3.ULE(c, 0x7E)))
+    mk = lambda c: Adt("Primitive", "Str", [strmodels.sstr([Sc("char", c)])])
+    cells = {RECV: gcmodels.gccell(Adt("Vec", None, [mk(e) for e in elems]))}
+    gv = Adt("GcVector", None, [Adt("Gc", None, [Ref(RECV)])])
+    ptr = Adt("Primitive", "HeapPrimitive", [Adt("HeapPrimitive", "ArrayPtr", [gv, sym.bv("usize", k)])])
+    cells[("ctx",)] = Adt("Ctx", None, [Adt("Vec", None, [ptr, mk(value)])] + [Opaque("ctx-field", i) for i in range(1, 6)])
+    cells[("iargs",)] = Adt("[]", None, [Opaque("strlit", '"+="')])
+    paths = []
+    for o in ak.lk.ex.run(ak.fn, [Ref(("ctx",)), Ref(("iargs",))], cells=cells, pc=pc):
+        pcz = z3.And(*o.pc) if o.pc else z3.BoolVal(True)
+        if o.kind == "panic":
+            paths.append((pcz, "panic", o.value.msg, None, None))
+            continue
+        vec = o.cells[RECV].fields[0]
+        post = []
+        for it in vec.fields:
+            if not (isinstance(it, Adt) and it.variant == "Str" and strmodels.is_sstr(it.fields[0])):
+                raise Inconclusive("string list element %r" % (it,))
+            post.append([c.e for c in it.fields[0].fields])
+        if o.value.variant == "Err":
+            paths.append((pcz, "err", None, None, post))
+            continue
+        stack = o.cells[("ctx",)].fields[0]
+        top = stack.fields[0] if len(stack.fields) == 1 else None
+        if not (isinstance(top, Adt) and top.variant == "Str" and strmodels.is_sstr(top.fields[0])):
+            raise Inconclusive("string element assignment left %r" % (stack,))
+        paths.append((pcz, "ok", None, [c.e for c in top.fields[0].fields], post))
+    s = StrAssignSummary("+=", n, k, elems, value, paths, time.time() - t)
+    return s
+
+
+def _txt(es, subs):
+    return "Str:" + "".join("%02x" % z3.simplify(z3.substitute(e, *subs)).as_long() for e in es)
+
+
+def str_assign_native_args(s, ev, vv):
+    return [("Str", x) for x in ev] + [("Str", vv)]
+
+
+def str_assign_eval(s, ev, vv):
+    subs = [(a, z3.BitVecVal(x, 32)) for a, x in zip(s.elems, ev)] + [(s.value, z3.BitVecVal(vv, 32))]
+    hits = []
+    for pc, kind, msg, top, post in s.paths:
+        if z3.is_true(z3.simplify(z3.substitute(pc, *subs))):
+            if kind == "panic":
+                hits.append("PANIC")
+            else:
+                items = ",".join(_txt(p, subs) for p in post)
+                hits.append(("ERR | %s" % items) if kind == "err" else "OK %s | %s" % (_txt(top, subs), items))
+    if not hits or any(h != hits[0] for h in hits):
+        raise Inconclusive("list[k] += str %s: %d paths enabled" % (s.arm, len(hits)))
+    return hits[0]
+
+
+def str_assign_validate(summaries, nat_eval_raw, release):
+    vecs, want = [], {}
+    for si, s in enumerate(summaries):
+        ev = [0x61 + i for i in range(s.n)]
+        vid = "sa%d" % si
+        vecs.append((vid, s.native_spec(), str_assign_native_args(s, ev, 0x7A)))
+        want[vid] = (s, ev, 0x7A)
+    res = nat_eval_raw(vecs, release)
+    mism = []
+    for vid, (s, ev, vv) in want.items():
+        pred = norm_native(str_assign_eval(s, ev, vv))
+        got = norm_native(res[vid])
+        if pred != got:
+            mism.append((s.arm, ev, vv, "engine", pred, "real", got))
+    return len(vecs), mism
+
+
+def str_assign_check(s, profile, qs, timeout_ms, seed):
+    out = []
+    e, v, k = s.elems, s.value, s.k
+    lab0 = "list[k]+=str[%s]/%s" % (s.arm, profile)
+
+    def ask(cond, label):
+        qs.obligations += 1
+        t = time.time()
+        c = z3.simplify(cond)
+        if z3.is_false(c):
+            qs.discharged += 1
+            return None
+        r, m = Q.solve(c, timeout_ms, seed)
+        qs.solver_s += time.time() - t
+        if r == z3.unsat:
+            qs.discharged += 1
+            return None
+        if r == z3.sat:
+            qs.violated += 1
+
+            def val(x, d):
+                y = m.eval(x, model_completion=False)
+                return y.as_long() if z3.is_bv_value(y) else d
+            return [val(a, 0x61 + i) for i, a in enumerate(e)], val(v, 0x7A)
+        qs.undecided.append(label)
+        return None
+
+    def finding(cls, w, detail):
+        ev, vv = w
+        f = Q.Finding("C13", "list.elem_assign", s.arm, cls, profile, str_assign_native_args(s, ev, vv), detail)
+        f.native_op = s.native_spec()
+        f.predicted_text = norm_native(str_assign_eval(s, ev, vv))
+        f.predicted = None
+        f.via = "instruction `bin_op_assign +=` through an element pointer (string elements)"
+        f.human = "a = %r; a[%d] += %r" % ([chr(x) for x in ev], k, chr(vv))
+        return f
+
+    for pi, (pc, kind, msg, top, post) in enumerate(s.paths):
+        lab = "%s:path%d" % (lab0, pi)
+        if kind != "ok":
+            w = ask(pc, lab + ":never-fails")
+            if w:
+                out.append(finding("spurious-failure", w, "appending to a string element fails (%s)" % kind))
+            continue
+        good = len(post) == s.n and all(len(p) == (2 if i == k else 1) for i, p in enumerate(post)) and len(top) == 2
+        cond = z3.And(*[post[i][0] == e[i] for i in range(s.n)] + [post[k][1] == v, top[0] == e[k], top[1] == v]) if good else z3.BoolVal(False)
+        w = ask(z3.And(pc, z3.Not(cond)), lab + ":ok=>element-then-value")
+        if w:
+            out.append(finding("wrong-contents", w, "the element does not become `element + value` (in this order), or another element changed"))
+    return out
+
+
+# ---------------------------------------------------------------- `a == b` on lists (Primitive::equals, vector arm)
+class ListEqSummary:
+    def __init__(self, n, m, a, b, paths, dt):
+        self.n, self.m, self.a, self.b, self.paths, self.seconds = n, m, a, b, paths, dt
+        self.method = "equals"
+
+    @property
+    def arm(self):
+        return "len=%d,len=%d%s" % (self.n, self.m, ",nested" if getattr(self, "nested", False) else "")
+
+    def native_spec(self):
+        return "E:%d:%d%s" % (self.n, self.m, ":nested" if getattr(self, "nested", False) else "")
+
+
+def summarize_list_eq(lk, n, m, nested=False):
+    """nested: the two lists are [[a..]] and [[b..]] (one inner list each) - element equality is then list equality again"""
+    from opkernels import FN_PATTERNS
+    t = time.time()
+    fn = targets.find_one(lk.mf, FN_PATTERNS["equals"])
+    a = [z3.BitVec("a%d" % i, 32) for i in range(n)]
+    b = [z3.BitVec("b%d" % i, 32) for i in range(m)]
+    cells = {("gc", 0): gcmodels.gccell(Adt("Vec", None, [prim("Int", Sc("i32", e)) for e in a])),
+             ("gc", 1): gcmodels.gccell(Adt("Vec", None, [prim("Int", Sc("i32", e)) for e in b]))}
+    if nested:
+        cells[("gc", 2)] = gcmodels.gccell(Adt("Vec", None, [vecp(("gc", 0))]))
+        cells[("gc", 3)] = gcmodels.gccell(Adt("Vec", None, [vecp(("gc", 1))]))
+        cells[("in", 0)] = vecp(("gc", 2))
+        cells[("in", 1)] = vecp(("gc", 3))
+    else:
+        cells[("in", 0)] = vecp(("gc", 0))
+        cells[("in", 1)] = vecp(("gc", 1))
+    paths = []
+    for o in lk.ex.run(fn, [Ref(("in", 0)), Ref(("in", 1))], cells=cells):
+        pcz = z3.And(*o.pc) if o.pc else z3.BoolVal(True)
+        if o.kind == "panic":
+            paths.append((pcz, "panic", o.value.msg))
+        elif o.value.variant == "Err":
+            paths.append((pcz, "err", None))
+        else:
+            paths.append((pcz, "ok", o.value.fields[0].e))
+    s_ = ListEqSummary(n, m, a, b, paths, time.time() - t)
+    s_.nested = nested
+    return s_
+
+
+def list_eq_native_args(s, av, bv):
+    return [("Int", x & 0xFFFFFFFF) for x in av] + [("Int", x & 0xFFFFFFFF) for x in bv]
+
+
+def list_eq_eval(s, av, bv):
+    subs = [(x, z3.BitVecVal(v, 32)) for x, v in list(zip(s.a, av)) + list(zip(s.b, bv))]
+    hits = []
+    for pc, kind, val in s.paths:
+        if z3.is_true(z3.simplify(z3.substitute(pc, *subs))):
+            hits.append("PANIC" if kind == "panic" else "ERR" if kind == "err" else "OK Bool:%d" % (1 if z3.is_true(z3.simplify(z3.substitute(val, *subs))) else 0))
+    if not hits or any(h != hits[0] for h in hits):
+        raise Inconclusive("list ==[%s]: %d paths" % (s.arm, len(hits)))
+    return hits[0]
+
+
+def list_eq_validate(summaries, nat_eval_raw, release):
+    vecs, want = [], {}
+    for si, s in enumerate(summaries):
+        av = [10 + i for i in range(s.n)]
+        for gi, bv in enumerate(([10 + i for i in range(s.m)], [10 + i + (1 if i == s.m - 1 else 0) for i in range(s.m)])):
+            vid = "e%d_%d" % (si, gi)
+            vecs.append((vid, s.native_spec(), list_eq_native_args(s, av, bv)))
+            want[vid] = (s, av, bv)
+    res = nat_eval_raw(vecs, release)
+    mism = []
+    for vid, (s, av, bv) in want.items():
+        pred, got = norm_native(list_eq_eval(s, av, bv)), norm_native(res[vid])
+        if pred != got:
+            mism.append((s.arm, av, bv, "engine", pred, "real", got))
+    return len(vecs), mism
+
+
+def list_eq_check(s, profile, qs, timeout_ms, seed, prop="C13"):
+    out = []
+    want = z3.And(*[x == y for x, y in zip(s.a, s.b)]) if (s.n == s.m and s.n) else z3.BoolVal(s.n == s.m)
+
+    def ask(cond, label):
+        qs.obligations += 1
+        t = time.time()
+        c = z3.simplify(cond)
+        if z3.is_false(c):
+            qs.discharged += 1
+            return None
+        r, m = Q.solve(c, timeout_ms, seed)
+        qs.solver_s += time.time() - t
+        if r == z3.unsat:
+            qs.discharged += 1
+            return None
+        if r == z3.sat:
+            qs.violated += 1
+
+            def val(x, d):
+                y = m.eval(x, model_completion=False)
+                return y.as_long() if z3.is_bv_value(y) else d
+            return [val(x, 10 + i) for i, x in enumerate(s.a)], [val(x, 10 + i) for i, x in enumerate(s.b)]
+        qs.undecided.append(label)
+        return None
+
+    for pi, (pc, kind, val) in enumerate(s.paths):
+        lab = "list ==[%s]/%s:path%d" % (s.arm, profile, pi)
+        if prop == "C17":
+            if kind == "panic":
+                w = ask(pc, lab + ":no-panic")
+                if w:
+                    f = Q.Finding("C17", "list.equals", s.arm, "panic:" + Q.panic_class(val), profile, list_eq_native_args(s, *w), "Rust panic `%s` comparing lists" % val)
+                    f.native_op, f.predicted_text, f.predicted, f.via, f.human = s.native_spec(), "PANIC", None, "function", "%r == %r" % w
+                    out.append(f)
+            else:
+                qs.obligations += 1
+                qs.discharged += 1
+            continue
+        if kind == "panic":
+            continue
+        cond = pc if kind == "err" else z3.And(pc, val != want)
+        w = ask(cond, lab + ":equal-iff-same-length-and-elements")
+        if w:
+            f = Q.Finding("C13", "list.equals", s.arm, "spurious-failure" if kind == "err" else "wrong-result", profile, list_eq_native_args(s, *w),
+                          "two lists compare equal although they differ in length or in an element (or unequal although identical)")
+            f.native_op = s.native_spec()
+            f.predicted_text = norm_native(list_eq_eval(s, *w))
+            f.predicted = None
+            f.via = "function"
+            f.human = "%r == %r" % w
+            out.append(f)
+    return out
